@@ -19,6 +19,8 @@ int op_bstr(int ntok, char **tok);
 int op_num(int ntok, char **tok);
 int op_fn(int ntok, char **tok);
 int op_urlenc(int ntok, char **tok);
+int op_mpart(int ntok, char **tok);
+void mpart_cleanup(void);
 int op_conn(int id, int ntok, char **tok);
 void conn_cleanup(void);
 htp_cfg_t *cfg_from_spec(const char *spec);
